@@ -14,7 +14,7 @@ import (
 // xsync.Group, on the simulated clock.
 
 func init() {
-	Register(&World{Name: "group", Props: []string{"C17"}, Concurrent: true, Timed: true, MaxSteps: 8000, Run: groupWorld})
+	Register(&World{Name: "group", Episodes: true, Props: []string{"C17"}, Concurrent: true, Timed: true, MaxSteps: 8000, Run: groupWorld})
 	ExpectedProbes["group"] = []string{"registration-after-stop", "registration-racing-stop", "trigger-during-run", "trigger-with-slot-full", "periodic-ran", "stop-while-f-running", "parent-cancelled", "do-ran", "periodic-or-trigger-by-timer", "periodic-or-trigger-by-trigger"}
 }
 
